@@ -26,6 +26,13 @@ NA = {
 }
 
 CHECKS = {
+ 'C13': dict(
+  engine='hist',
+  technique='deterministic simulation with fault injection: seeded histories (<=30) of public read-only/constructive calls over a shared pool (all region classes, coordinates, WCS, images, lists, DS9/CRTF texts, FITS tables, masks, boxes), with calls made to fail part-way by injected faults (bad argument, failing WCS collaborator, OS error, escalated warning, malformed line in a text; line-level aborts as amplifier); every call fingerprint-checks its inputs, is compared with the same call evaluated first in a fork of a pristine process, repeated calls are compared, and a fixed canary battery is compared with its pristine outcome after the history',
+  category='exploration',
+  text='Seeded search over call histories in one process. I1: after every call (normal or failing) the bit-exact fingerprints of its arguments, of a seeded third of the rest of the pool and of the run disk are unchanged, and the whole pool is unchanged at the end. I2: the outcome (result fingerprint, exception class/message, library warnings) of a call made after the history equals that of the same call evaluated alone in a fork of a pristine post-import process (half of the calls and always the last five in quick, all in thorough). I3: a call issued twice in a row gives the same outcome. I4: a fixed battery of 173 parse/serialise/convert calls gives after the history the outcome it gave in a pristine process. Violations are minimised by dropping calls/faults and replay exactly in a fresh interpreter. Sampling gives evidence, not proof.',
+  design_ref='DESIGN.md sections 2 (R2, R3), 3.1',
+  note='Trusted: fingerprint code (ignores astropy caches by construction), numpy/astropy/matplotlib. The pristine reference shares the PYTHONHASHSEED of the run (R3). Line-level aborts are an amplifier: a violation counts only if it persists with every abort removed. Thread safety and re-entrancy are not explored. plot() and as_mpl_selector() are excluded (mutating the axes / tracking a widget is their job).'),
  'C14': dict(
   engine='fsx',
   technique='deterministic simulation with fault injection: seeded multi-step write/read histories against a private simulated disk (destination states, failing list elements at every position, bad options, escalated warnings, modelled locale encoding), disk snapshots before/after every call checked against refusal / failure-atomicity / read-back invariants and a reference model of the disk',
@@ -76,6 +83,8 @@ def main():
             'add_only': True,
         },
         'engines': [
+            {'name': 'hist', 'path': 'sim/engines/hist.py', 'serves_properties': ['C13'],
+             'kind_free_text': 'history simulator: seeded call histories with injected failing calls, pristine-fork reference evaluation, canary battery'},
             {'name': 'fsx', 'path': 'sim/engines/fsx.py', 'serves_properties': ['C14'],
              'kind_free_text': 'file-system fault simulator: seeded write/read histories on a private disk, snapshots + reference model'},
             {'name': 'val', 'path': 'sim/engines/val.py', 'serves_properties': ['C16', 'C17'],
